@@ -327,6 +327,7 @@ def templates(cls):
         # date arithmetic: an Interval (a Node that is not a Term) next to fields of OLD
         "interval_arith": [["from_", [["src", "T"]]], ["select", [["add", A, ["interval", {"days": 1}]]]], ["where", [["gt", B, ["sub", ["fn", "Now", []], ["interval", {"hours": 2, "minutes": 5}]]]]]],
         "interval_fn_arg": [["from_", [["src", "T"]]], ["join", [["src", "U"], ["enum", "JoinType", "inner"]], {}, ["on", [["eq", UA, A]]]], ["select", [["fn", "Coalesce", [["add", B, ["interval", {"weeks": 1}]], UA]]]]],
+        "custom_function": [["from_", [["src", "T"]]], ["join", [["src", "U"], ["enum", "JoinType", "inner"]], {}, ["on", [["eq", UA, A]]]], ["select", [["customfn", "f", ["x", "y", "z"], [A, UA, ["raw", 3]]]]], ["where", [["gt", ["customfn", "g", ["x"], [B]], ["raw", 0]]]]],
         "update_set": [["update", [["src", "T"]]], ["set", [A, ["add", B, ["raw", 1]]]], ["where", [["eq", A, ["raw", 1]]]]],
         "update_set_value_other": [["update", [["src", "U"]]], ["from_", [["src", "T"]]], ["set", [["col", "U", "b"], B]], ["where", [["eq", UA, A]]]],
         "delete": [["from_", [["src", "T"]]], ["delete", []], ["where", [["eq", A, ["raw", 1]]]]],
